@@ -523,6 +523,11 @@ def _drop_extension_points(fn: ast.AST) -> None:
 
 def normal_form(fn_node, is_generator_ok: bool = False, sigs=None) -> ast.FunctionDef:
     node = copy.deepcopy(fn_node)
+    # a configuration attribute read once into a local (`flag = self.env.x`, never stored to in
+    # the function) is the attribute: one twin may hoist it, the other read it in place
+    from ..normalize import propagate_aliases
+
+    node = propagate_aliases(node)
     _drop_extension_points(node)
     node.decorator_list = [
         d for d in node.decorator_list if ast.unparse(d) not in ("abstractmethod",)
